@@ -440,7 +440,8 @@ def setRecord (s : State) (env : Env) (name : Bytes) (typ id : Nat) (data : Byte
     else if dupElsewhere old id data then none
     else some (s.setRecs k (setNth old id data))
 
-/-- `GetRecords` -/
+/-- `GetRecords` (after f022f46: `getFragmentedNameState(ctx, tokenID, nil)` checks the parent chain of the
+token the records belong to, i.e. the fragments of `tokenID`, as `checkRecord` does) -/
 def getRecords (s : State) (name : Bytes) (typ : Nat) : Option (List Bytes) :=
   let frs := split 46 name
   if frs.length = 1 then none
@@ -449,7 +450,7 @@ def getRecords (s : State) (name : Bytes) (typ : Nat) : Option (List Bytes) :=
     | none => none
     | some cfrs =>
       let token := tokenIDFromName s name cfrs
-      if !nameStateOK s token frs then none
+      if !nameStateOK s token (split 46 token) then none
       else some (s.recsOf ⟨token, name, typ⟩)
 
 /-- one invocation; `none` = FAULT -/
